@@ -1050,6 +1050,13 @@ def last_block_header_child(ast: AST) -> AST | None:
 
         elif isinstance(child, list):
             if any(ret := a for a in reversed(child) if isinstance(a, AST)):
+                if (field == 'keywords'
+                    and (bases := getattr(ast, 'bases', None))
+                    and (base := bases[-1]).__class__ is Starred
+                    and (base.lineno, base.col_offset) > (ret.lineno, ret.col_offset)
+                ):
+                    return base  # a starred base of a ClassDef can follow its last keyword
+
                 return ret
 
     return None
